@@ -5,7 +5,9 @@ import (
 	"errors"
 	"fmt"
 	"os"
+	"path/filepath"
 	"strings"
+	"sync/atomic"
 	"time"
 
 	"github.com/KevoDB/kevo/pkg/config"
@@ -85,10 +87,29 @@ func Quiesce(e *engine.EngineFacade) bool {
 	}
 }
 
+// ErrRetireRaced is returned by Retire when the harness's own retention call
+// overlapped a rotation of the engine's background flusher and the damage (the
+// live log file unlinked) could not be undone by a further rotation.
+var ErrRetireRaced = errors.New("harness: log retention overlapped a background log rotation")
+
+// RetireRepairs counts how often Retire had to rotate once more because its
+// retention call had overlapped a background rotation (see Retire).
+var RetireRepairs atomic.Int64
+
 // Retire flushes everything (immutable tables, then the active table) and
 // removes all log files except the current one through WAL.ManageRetention.
 // Afterwards reads can only be served from SSTables.
-func Retire(e *engine.EngineFacade) error {
+//
+// ManageRetention is a call of the HARNESS on a log handle it fetched itself;
+// the engine's background flusher may rotate the log at any moment (a queued
+// flush signal, the periodic tick), and a handle that is being rotated out
+// keeps ITS file and removes the newer, live one. That is a consequence of how
+// the harness retires logs, not a step of any property's programs, so Retire
+// makes its own call safe: after the retention it waits for a flush in
+// progress and, if an unlinked log file is still held open by this process,
+// rotates once more (nothing was written in between: the client is this
+// goroutine), so that the live log is a file that exists.
+func Retire(e *engine.EngineFacade, dir string) error {
 	Quiesce(e)
 	for i := 0; i < 2; i++ {
 		if err := e.FlushImMemTables(); err != nil {
@@ -96,12 +117,69 @@ func Retire(e *engine.EngineFacade) error {
 		}
 		Quiesce(e)
 	}
-	w := e.GetWAL()
-	if w == nil {
-		return errors.New("no WAL")
+	var err error
+	for tries := 0; tries < 20; tries++ {
+		w := e.GetWAL()
+		if w == nil {
+			return errors.New("no WAL")
+		}
+		_, err = w.ManageRetention(wal.WALRetentionConfig{MaxFileCount: 1})
+		if errors.Is(err, wal.ErrWALClosed) {
+			// rotated out completely before the call: nothing was removed
+			continue
+		}
+		break
 	}
-	_, err := w.ManageRetention(wal.WALRetentionConfig{MaxFileCount: 1})
+	if rerr := settleLog(e, dir); rerr != nil {
+		return rerr
+	}
 	return err
+}
+
+// settleLog is the second half of Retire: wait for a flush in progress and
+// rotate again as long as this process holds an unlinked log file open.
+func settleLog(e *engine.EngineFacade, dir string) error {
+	sm, _ := e.VerifStorage().(*storage.Manager)
+	for tries := 0; ; tries++ {
+		if sm != nil {
+			sm.VerifImmutableCount() // barrier: a flush in progress (and its rotation) is over
+		}
+		if !unlinkedLogOpen(dir) {
+			return nil
+		}
+		if tries == 8 {
+			return ErrRetireRaced
+		}
+		RetireRepairs.Add(1)
+		if ferr := e.FlushImMemTables(); ferr != nil {
+			return ferr
+		}
+	}
+}
+
+// unlinkedLogOpen reports whether this process holds a removed *.wal file of
+// the database in dir open.
+func unlinkedLogOpen(dir string) bool {
+	root, rerr := filepath.Abs(dir)
+	if rerr == nil {
+		if r2, err := filepath.EvalSymlinks(root); err == nil {
+			root = r2
+		}
+	}
+	ents, err := os.ReadDir("/proc/self/fd")
+	if err != nil {
+		return false
+	}
+	for _, en := range ents {
+		l, err := os.Readlink("/proc/self/fd/" + en.Name())
+		if err != nil || !strings.HasSuffix(l, ".wal (deleted)") {
+			continue
+		}
+		if rerr != nil || strings.HasPrefix(l, root+string(os.PathSeparator)) {
+			return true
+		}
+	}
+	return false
 }
 
 // IsNotFound classifies an error of a read as "key absent".
@@ -397,7 +475,10 @@ func (r *Runner) Do(i int) (*Mismatch, error) {
 	case "retire":
 		// make every write durable in SSTables, then drop the flushed log files
 		// with the repository's own retention code
-		if err := Retire(r.Eng); err != nil {
+		if err := Retire(r.Eng, r.Dir); err != nil {
+			if errors.Is(err, ErrRetireRaced) {
+				return nil, err
+			}
 			r.MaintErrors++
 		}
 		r.LastMaint = "retire"
